@@ -18,6 +18,7 @@ import (
 	"github.com/saucelabs/forwarder/internal/verifsim/sched"
 	"github.com/saucelabs/forwarder/internal/verifsim/simnet"
 	"github.com/saucelabs/forwarder/internal/verifsim/tape"
+	"github.com/saucelabs/forwarder/internal/verifsim/verifsync"
 )
 
 func init() {
@@ -205,6 +206,7 @@ func RunOne(t *testing.T, w *World, o RunOpts) *RunResult {
 	}
 	t.Run(fmt.Sprintf("%s/%d", w.Name, o.Seed), func(t *testing.T) {
 		cryptotest.SetGlobalRandom(t, o.Seed)
+		verifsync.SeedRand(o.Seed)
 		defer func() {
 			if r := recover(); r != nil {
 				msg := fmt.Sprint(r)
